@@ -41,14 +41,14 @@ def main(argv=None):
             if a.root:
                 battery.ROOT = a.root
             fa = battery.run_for(a.prop)
-            print('  false-alarm battery %s: 11 whole-package behaviour-preserving rewrites, %d false alarms' % (a.prop, len(fa)))
+            print('  false-alarm battery %s: 13 whole-package behaviour-preserving rewrites, %d false alarms' % (a.prop, len(fa)))
             for x in fa[:10]:
                 print('    FALSE-ALARM %s %s %s' % x)
             try:
                 import json as _json
                 evp = os.path.join(os.path.dirname(os.path.dirname(os.path.abspath(__file__))), 'evidence', a.prop + '.json')
                 d = _json.load(open(evp))
-                d['coverage']['false_alarm_battery'] = {'modes': ['unparse', 'rename', 'rettemp', 'split', 'swap', 'assert2raise', 'meth2func', 'dimkw', 'cmpflip', 'elseflip', 'merge'], 'false_alarms': len(fa),
+                d['coverage']['false_alarm_battery'] = {'modes': ['unparse', 'rename', 'rettemp', 'split', 'swap', 'assert2raise', 'meth2func', 'dimkw', 'cmpflip', 'elseflip', 'merge', 'ternary2if', 'if2ternary'], 'false_alarms': len(fa),
                                                         'details': [list(x) for x in fa[:20]]}
                 _json.dump(d, open(evp, 'w'), indent=1, default=str)
             except OSError:
